@@ -38,6 +38,7 @@ def scenario(rng, S, M, hashmode, nsweeps, workers=0):
                 # C16: duplicate paths must leave the arguments alone; compatible key types must agree
                 d = rng.choice(present)
                 lines.append("%s %d %d" % (rng.choice(["insmv", "upsmv", "ioamv"]), d, 5))
+                lines.append("%s %d %d" % (rng.choice(["inslv", "upslv", "ioalv"]), rng.choice([d, keys.pop()]), 6))
                 lines.append("%s %d 0" % (rng.choice(["findp", "containsp"]), rng.choice([d, keys[-1]])))
                 lines.append("find %d 0" % d)
             if rng.random() < 0.15 and present:
@@ -83,9 +84,9 @@ def scenario(rng, S, M, hashmode, nsweeps, workers=0):
     lines += ["upsthrow %d 4" % keys.pop(), "scan"]
     if present:
         lines += ["updp %d 4242" % present[-1], "find %d 0" % present[-1], "erasep %d 0" % present[-1], "find %d 0" % present[-1]]
-    lines += ["lock 0 0", "ltins %d 1" % keys.pop(), "ltinsmv %d 2" % keys.pop()]
+    lines += ["lock 0 0", "ltins %d 1" % keys.pop(), "ltinsmv %d 2" % keys.pop(), "ltinslv %d 2" % keys.pop()]
     if present:
-        lines += ["ltinsmv %d 3" % present[0]]
+        lines += ["ltinsmv %d 3" % present[0], "ltinslv %d 3" % present[0]]
     lines += ["unlock 0 0", "scan", "oldfreed", "destroy"]
     return lines
 
